@@ -181,7 +181,10 @@ func genC16(t *rapid.T) (c16Case, []string) {
 		if i > 0 && kind == "valid" {
 			cur, label = mutateCfg(t, cur)
 		}
-		c.Docs = append(c.Docs, c16Doc{Kind: kind, Cfg: cur.Clone()})
+		doc := cur.Clone()
+		doc.Extra = nil
+		drawExtraKeys(t, &doc) // each document decides anew about keys beyond the known schema
+		c.Docs = append(c.Docs, c16Doc{Kind: kind, Cfg: doc})
 		labels = append(labels, kind+":"+label)
 	}
 	return c, labels
